@@ -10,11 +10,11 @@ import numpy as np
 from rv import detmodel as D
 from rv import common as C
 
-N_CASES = {'quick': 1600, 'thorough': 30000}
+N_CASES = {'quick': 4800, 'thorough': 30000}
 TIMEOUT = {'quick': 1500, 'thorough': 6 * 3600}
 ANCHORS = ['lp:LinConstr.dual', 'lp:Bounds.dual', 'lp:def_sol', 'grb_solver:solve',
            'eco_solver:solve', 'lp:Model.do_math']
-FLOORS = {'judged': {'quick': 1100, 'thorough': 20000}, 'nontrivial': 100}
+FLOORS = {'judged': {'quick': 3300, 'thorough': 20000}, 'nontrivial': 100}
 RULE = ('feasible bounded continuous LPs (dual certificate built first) through ro.Model: <=, >=, '
         '== rows in array form and reflected spellings, bounds as Bounds objects on whole '
         'variables/slices/entries and as single rows, every bound pattern, min and max; '
